@@ -326,6 +326,11 @@ def judge_reopen(ctx: Ctx, c: Case, rep: Dict[str, Any]) -> None:
         bad("followup-append", f"follow-up append: ok={rep['append_ok']} rows {len(rep['scan_after_append'] or [])} expected {len(want)}")
     r1, r2, r3 = rep["reader1"], rep["reader2"], rep["reader3"]
     retained = [s["rows"] for s in r1["snapshots"]]
+    before = [f for f in r1["files"] if (f.startswith("data/") or f.startswith("metadata/manifests/")) and f not in r1["reachable"]]
+    if before:      # non-vacuity of the collection checks: the dead operation did leave something to collect
+        ctx.cov["cases_with_leftovers_to_collect"] = ctx.cov.get("cases_with_leftovers_to_collect", 0) + 1
+        if [f for f in before if f not in r2["files"]]:
+            ctx.cov["cases_first_collection_removed_something"] = ctx.cov.get("cases_first_collection_removed_something", 0) + 1
     for tag, r in (("garbage_collect(0) right after the crash", r2), ("collect(0, 0) after the abandonment window", r3)):
         if r["missing"] or [s["rows"] for s in r["snapshots"]] != retained or r["meta"] != r1["meta"]:
             bad("gc-deletes-live", f"{tag} damaged a retained snapshot: missing {r['missing'][:3]}")
@@ -364,7 +369,7 @@ def model_part(ctx: Ctx, max_prior: int) -> List[Dict[str, Any]]:
 
 def run(ctx: Ctx) -> None:
     quick = ctx.tier == "quick"
-    spec_classes = model_part(ctx, 2)
+    spec_classes = model_part(ctx, 2 if quick else 3)
     if ctx.violations:
         return
     by_op: Dict[str, set] = {}
@@ -468,7 +473,9 @@ def run(ctx: Ctx) -> None:
     ctx.cov["spec_crash_classes_hit"] = sum(len(by_op[op] & hit.get(op, set())) for op in by_op)
     ctx.cov["real_steps_without_spec_class"] = {op: [f"{a}/{b}" for a, b in v] for op, v in extra.items()}
     if missing:
-        raise MachineryError(f"crash classes enumerated by MC_FSDurable that no real crash run hit: {missing}")
+        ctx.cov["spec_crash_classes_not_hit"] = {op: [f"{a}/{b}" for a, b in v] for op, v in missing.items()}
+        if not ctx.violations:      # a verdict is never masked by a coverage complaint
+            raise MachineryError(f"model drift: crash classes enumerated by MC_FSDurable that no real crash run hit: {missing}")
     ctx.cov["exhaustive"] = not quick
     some = [c for c, _ in cases if c.cls == ("hint", "rename")][:1] + [c for c, _ in cases if c.cls[0] == "data"][:1]
     for c in some:
